@@ -324,7 +324,8 @@ func runC15Case(c *Ctx, idx int) *CaseResult {
 			ctx, cancel = context.WithTimeout(context.Background(), 1000*time.Hour)
 			cancel()
 		}
-		cfg := RunCfg{MaxCycle: maxCycle, Ctx: ctx}
+		// every other program: on a data context that has been completed before
+		cfg := RunCfg{MaxCycle: maxCycle, Ctx: ctx, PreComplete: idx%2 == 1}
 		res := Run(kb, prog, CopyStateLive(init), cfg)
 		cancel()
 		cr.Evals++
